@@ -43,6 +43,8 @@ CONFIGS = {
     "array_uncertain": [("m", 0, 1, 1), ("c:m", 0, 0, 1)],
 }
 REP_PURE = ["add", "mul", "eq", "neg", "np.sqrt", "np.abs", "np.linspace", "np.sin", "value", "ctor_dict", "getitem", "radd"]
+REP_PURE_QUICK = ["add", "mul", "eq", "neg", "np.abs", "np.linspace", "ctor_dict"]
+QUICK_REPAIRED = ["other_unit", "dB_same", "decimal_right", "array_uncertain", "angles", "dimensionless"]
 
 
 def _b(x):
@@ -261,7 +263,7 @@ def replay_history(job):
                             failure="shared_state" if inplace else "operand_changed",
                             tags=[a["op"], "role:" + role] + sorted(fired.get(o, [])),
                             expected=s0, observed=s1)))
-                elif o in must and judged:
+                elif o in must and judged and "nan" not in json.dumps(s1):
                     out.append(("drift", f"machine predicts {fired[o]} on object {o} at step {k+1} of {brief(job)} but the object did not change"))
             snaps = new
             # ---- conformance of raising / result
@@ -356,7 +358,8 @@ def run(replay_path=None, replay=None):
 
     full_bounds = (2, 1, 2) if t == "quick" else (3, 1, 2)
     # 1a. the repaired design satisfies the property
-    ra = model("repaired_design", configs, "AllPureOps", "InplaceOps", True, (2, 1, 2) if t == "quick" else (3, 2, 2),
+    ra = model("repaired_design", [CONFIGS[k] for k in QUICK_REPAIRED] if t == "quick" else configs, "AllPureOps", "InplaceOps", True,
+               (2, 1, 2) if t == "quick" else (3, 2, 2),
                ["Frame", "NoShare", "SameObjects"], emit=False)
     if ra.violated:
         raise C.MachineryError(f"the repaired machine violates {ra.violated}: the ideal/machine pair is inconsistent\n{ra.cex[:3000]}")
@@ -373,10 +376,11 @@ def run(replay_path=None, replay=None):
         V.notes.append(f"TLC: {rf.violated} violated on the pinned machine: {rf.cex[:500]}")
     recs = [dict(r, src="full") for r in rf.records]
     # 1d. deeper histories over representative operations (one path per distinct heap state)
-    deep_confs = [CONFIGS[k] for k in (("other_unit", "dB_same") if t == "quick" else
+    deep_confs = [CONFIGS[k] for k in (("other_unit",) if t == "quick" else
                                        ("other_unit", "dB_same", "three_units", "uncertain", "angles", "dimensionless", "decimal_right", "array_left"))]
-    rd = model("pinned_deep", deep_confs, C.tla_str(set(REP_PURE)), '{"to", "abse_set", "rebase"}', False,
-               (3, 2, 2) if t == "quick" else (4, 2, 2), ["AllNamed"], view=True, prop=False)
+    rd = model("pinned_deep", deep_confs, C.tla_str(set(REP_PURE_QUICK if t == "quick" else REP_PURE)),
+               '{"to", "abse_set"}' if t == "quick" else '{"to", "abse_set", "rebase"}', False,
+               (3, 2, 1) if t == "quick" else (4, 2, 2), ["AllNamed"], view=True, prop=False)
     recs += [dict(r, src="deep") for r in rd.records]
     # 2. replay
     jobs = []
@@ -428,7 +432,7 @@ def run(replay_path=None, replay=None):
         "evaluations": len(jobs), "distinct_nontrivial": len(nontriv),
         "rule": "histories = every sequence of <= {} steps with <= {} operation(s) of the full alphabet ({} operations incl. all documented "
                 "NumPy functions) and <= {} in-place methods, from 14 initial configurations (TLC, exhaustive), plus one path to every "
-                "distinct heap state of depth <= {} over 12 representative operations; each replayed on real objects with all live objects "
+                "distinct heap state of depth <= {} over 7-12 representative operations; each replayed on real objects with all live objects "
                 "snapshotted after every step; non-trivial = distinct histories with >= 2 steps or a fired deviation".format(
                     full_bounds[0], full_bounds[1], len(ops_seen), full_bounds[2], 3 if t == "quick" else 4),
         "samples": [dict(history=brief(j), style=j["style"], steps=[dict(op=s["a"]["op"], x=s["a"]["x"], y=s["a"]["y"], receiver=s["recv"],
